@@ -11,7 +11,12 @@ so that each annotation rewrite meets the language features it interacts with (l
 the expected return type, zero-parameter lambdas, bounds that mention other type parameters, ...).  It re-parses and keeps
 an instance only if the syntax tree shows exactly the intended modification; originals and rewritten programs
 are compiled and run on both back ends; spec/RewritesTrace.tla checks the action property
-[][verdict' = verdict /\\ (accepted => obs' = obs)] between consecutive programs of every recorded history."""
+[][verdict' = verdict /\\ (accepted => obs' = obs)] between consecutive programs of every recorded history.
+Which binders RenameLocal may rename, and which occurrences go with a binder, is decided by the reference reading of
+the parsed tree (spec/RewritesNames.tla; confirmed per instance by spec/RewritesNamesTrace.tla), never by the checker
+under test: the corpus holds accepted programs that bind one name in several scopes that follow one another
+(corpus/c13/rebind_*.sam); on a tree that rejects one of them it is a rejected program whose verdict every rewrite
+instance must keep."""
 import glob, hashlib, json, os, re, time
 from concurrent.futures import ThreadPoolExecutor
 from vlib import *
@@ -32,9 +37,24 @@ REQUIRED_FEATURES = [
     "type_parameter_bounds_mentioning_itself",
     "type_parameter_bounds_mentioning_earlier_parameter",
     "type_parameter_bounds_mentioning_later_parameter",
+    # RenameLocal: programs that bind a name again once the scope of an earlier binder of that name is closed
+    # (a checker that keeps a scope open too long rejects them, and renaming either binder apart flips that)
+    "if_let_guard_name_bound_again_in_else_branch:iflet",
+    "if_let_guard_name_bound_again_in_else_branch:let",
+    "if_let_guard_name_bound_again_in_else_branch:arm",
+    "if_let_guard_name_bound_again_in_else_branch:lambda",
+    "name_bound_again_after_scope_closed:iflet_then_iflet",
+    "name_bound_again_after_scope_closed:iflet_then_let",
+    "name_bound_again_after_scope_closed:arm_then_arm",
+    "name_bound_again_after_scope_closed:arm_then_let",
+    "name_bound_again_after_scope_closed:let_then_let",
+    "name_bound_again_after_scope_closed:lambda_then_lambda",
+    "name_bound_again_after_scope_closed:lambda_then_let",
+    "name_bound_again_after_scope_closed:let_then_lambda",
 ]
 EXHAUSTIVE_HIST = 1_000_000      # history numbers of the exhaustive pass start here
 DENSE_CAP_QUICK = 0              # quick tier: Parenthesise / WrapInBlock instances per corpus program (0 = all)
+RENAME_APART_MAX = 80            # steps of a rename-apart history
 BUILDS = [31]
 PROFILES = (("mixed", 0.3), ("enums", 0.2), ("closures", 0.2), ("loops", 0.15), ("strings", 0.15))
 
@@ -134,7 +154,8 @@ def corpus(d, tier):
     return programs
 
 
-def rewrite(d, programs, per_program, chain, avoid, jobs=8, kinds=None, exhaustive=False, max_per_kind=0, tag="rw"):
+def rewrite(d, programs, per_program, chain, avoid, jobs=8, kinds=None, exhaustive=False, max_per_kind=0, tag="rw",
+            rename_apart=0):
     """runs `vh rewrite` over the programs in parallel; returns (step records, census);
     exhaustive: every applicable instance of `kinds` (per program and kind at most max_per_kind, 0 = all)
     as a history of one step, instead of sampled chains"""
@@ -152,6 +173,8 @@ def rewrite(d, programs, per_program, chain, avoid, jobs=8, kinds=None, exhausti
             args += ["--kinds", ",".join(kinds)]
         if exhaustive:
             args += ["--exhaustive", "--max-per-kind", max_per_kind]
+        if rename_apart:
+            args += ["--rename-apart", "--max-steps", rename_apart]
         out, _ = vh(args, timeout=3000)
         return read_ndjson(outp), json.loads(out.strip().splitlines()[-1])
 
@@ -189,8 +212,23 @@ def exhaustive_pass(d, programs, tier, avoid):
               "kinds": {k: {"found": 0, "attempted": 0, "applied": 0, "discarded": 0, "discard_reasons": {}} for k in KINDS},
               "kinds_on_rejected_variants": {k: {"found": 0, "attempted": 0, "applied": 0, "discarded": 0, "discard_reasons": {}} for k in KINDS},
               "per_expression_kinds_cap_per_program": cap}
+    # ... and per corpus program one history that renames apart, step after step, every binder whose name is
+    # bound more than once in its module (thorough: also on the variants with an injected error)
+    passes.append((ok, ["RenameLocal"], 0, "apart"))
+    if tier != "quick":
+        passes.append((bad, ["RenameLocal"], 0, "apartb"))
+    census["rename_apart_histories"] = 0
+    census["rename_apart_steps"] = 0
     for n, (progs, kinds, mpk, tag) in enumerate(passes):
         if not progs:
+            continue
+        if tag.startswith("apart"):
+            st, c = rewrite(d, progs, 0, 1, avoid, rename_apart=RENAME_APART_MAX, tag=tag)
+            for x in st:
+                x["hist"] += EXHAUSTIVE_HIST * (n + 1)
+            steps += st
+            census["rename_apart_histories"] += c["histories"]
+            census["rename_apart_steps"] += c["steps"]
             continue
         st, c = rewrite(d, progs, 0, 1, avoid, kinds=kinds, exhaustive=True, max_per_kind=mpk, tag=tag)
         for x in st:
@@ -202,6 +240,36 @@ def exhaustive_pass(d, programs, tier, avoid):
         if tag == "exs":
             census["features"] = c["features"]
     return steps, census
+
+
+def confirm_rename_instances(d, steps, stats):
+    """spec/RewritesNamesTrace.tla confirms, for every RenameLocal step, that the binder is renameable by the
+    reference reading (RewritesNames.tla) and that exactly the uses that resolve to it were renamed.
+    The harness computes both with a transcription of those operators; a step TLC does not confirm means harness
+    and specification have come apart (tool failure, never a verdict)."""
+    rn = [s for s in steps if s["kind"] == "RenameLocal"]
+    rows = [s["names"] for s in rn if "names" in s]
+    stats["rename_steps"] = len(rn)
+    stats["rename_steps_confirmed_by_tlc"] = 0
+    stats["rename_steps_member_too_large_for_tlc"] = len(rn) - len(rows)
+    stats["rename_steps_where_checker_reads_binder_differently"] = sum(1 for s in rn if not s.get("checker_agrees", True))
+    if not rows:
+        return
+    tr = os.path.join(d, "names.ndjson")
+    write_ndjson(tr, rows)
+    v = tlc("RewritesNamesTrace", "RewritesNamesTrace.cfg", env={"TRACE": tr}, workers=4, tag="c13names", timeout=1200, xmx="4g")
+    if not v.ok:
+        log(v.out[-3000:])
+        tool_failure(f"RewritesNamesTrace.tla run failed: {v.violated or v.error}")
+    vs = {x["r"]: x for x in behaviours_from(v, "VERDICT")}
+    if sorted(vs) != list(range(1, len(rows) + 1)):
+        tool_failure(f"RewritesNamesTrace judged {len(vs)} of {len(rows)} rename instances")
+    bad = [i for i, x in vs.items() if not (x["wellFormed"] and x["renameable"] and x["occurrences"])]
+    if bad:
+        log(json.dumps({"row": rows[bad[0] - 1], "verdict": vs[bad[0]]})[:3000])
+        tool_failure(f"{len(bad)} RenameLocal instance(s) of the harness are not instances by RewritesNames.tla (harness/spec drift)")
+    stats["rename_steps_confirmed_by_tlc"] = len(rows)
+    stats["tlc_states"] = stats.get("tlc_states", 0) + v.generated
 
 
 def apply_delta(sources, delta):
@@ -399,6 +467,19 @@ def run(tier):
     n_sampled = len(steps)
     steps += ex_steps
     log(f"[c13] {n_sampled} sampled rewrite steps + {len(ex_steps)} (every instance on the feature corpus); {time.time()-t0:.0f}s")
+    confirm_rename_instances(d, steps, stats)
+    for s in steps:
+        s.pop("names", None)
+    # the checker's own name resolution against the reference reading (information: a difference is not a verdict;
+    # the verdict is what renaming does to accepted / rejected)
+    reading = {k: census["features"].get(k, 0) + ex_census["features"].get(k, 0)
+               for k in ("local_binders", "local_binders_in_a_name_clash", "local_binders_the_checker_reads_differently",
+                         "local_uses", "local_uses_the_checker_resolves_differently")}
+    if reading["local_binders_the_checker_reads_differently"] or reading["local_uses_the_checker_resolves_differently"]:
+        log(f"MODEL-DRIFT: the checker's name resolution differs from the reference reading (RewritesNames.tla) at "
+            f"{reading['local_binders_the_checker_reads_differently']} of {reading['local_binders']} local binders and "
+            f"{reading['local_uses_the_checker_resolves_differently']} of {reading['local_uses']} uses")
+    log(f"[c13] {stats['rename_steps_confirmed_by_tlc']} of {stats['rename_steps']} RenameLocal instances confirmed by RewritesNamesTrace.tla; {time.time()-t0:.0f}s")
     hists = run_histories(d, programs, steps)
     log(f"[c13] programs compiled and run; {time.time()-t0:.0f}s")
     fails = judge(d, programs, hists, stats, kf)
@@ -484,6 +565,14 @@ def run(tier):
                                     "kinds capped per program in the quick tier when the cap is non-zero), and every instance of "
                                     "the other kinds on its variants with one injected error; one history of one step each"),
         "chain_lengths": {str(k): v for k, v in sorted(chains.items())},
+        "rename_local_instances": {"steps": stats["rename_steps"],
+                                   "confirmed_by_RewritesNamesTrace": stats["rename_steps_confirmed_by_tlc"],
+                                   "member_too_large_for_tlc": stats["rename_steps_member_too_large_for_tlc"],
+                                   "steps_where_checker_reads_the_binder_differently": stats["rename_steps_where_checker_reads_binder_differently"],
+                                   "reference_reading_vs_checker": reading,
+                                   "rule": "binders and their occurrences come from the reference reading of the parsed tree "
+                                           "(RewritesNames.tla), not from the checker under test; the comparison with the checker's "
+                                           "own resolution is information only"},
         "error_count_drift_steps": n_drift,
         "known_finding_hits": stats.get("known_hits", 0),
         "abstract_model": {"states": mc.distinct, "transitions": mc.generated, "capture_counterexample_found": True},
@@ -497,7 +586,11 @@ def run(tier):
                     "exactly that type (same classes in the same modules); types with unknown parts or classes not in scope are not instances",
                     "WrapInBlock is not applied to a class name (not a value expression) nor to the callee `e.m` of a call whose type arguments "
                     "are inferred from that call (spec.md 6.7.2: `e.m(args)` is one syntactic form)",
-                    "RenameLocal skips binders whose name takes part in a name-clash diagnostic; programs with syntax errors are not rewritten",
+                    "RenameLocal renames a binder and the uses that resolve to it by the reference reading of the parsed tree (RewritesNames.tla: "
+                    "Parent / ScopeOf extracted by the harness, every instance confirmed by TLC), whatever the checker under test says; only binders "
+                    "whose name takes part in a name clash BY THAT READING (re-use of the name of an enclosing binder) are no instances; "
+                    "programs with syntax errors are not rewritten",
+                    "a feature-corpus program the tree under test rejects is a rejected program like any other: all its rewrite instances are applied and must keep the verdict",
                     "behaviour is compared on runs the language defines (Observations!ImplDefined excluded); rejected programs compare the verdict; "
                     "a changed number of diagnostics is reported as drift only"],
                    time.time() - t0, fails)
